@@ -430,6 +430,10 @@ func checkC10(c *Ctx) {
 	c.Expect("R4", 7)
 	c.Expect("R5", 2)
 	checkEncoderIntegerText(c, "R7")
+	c.Rule("R12", "independence of chunking: the line reader's returned line ends at (start of the searched window + index + 1)")
+	checkLineEndMatchesSearch(c, "R12")
+	c.Rule("R11", "decoded bytes are handed out once: the slab allocator's cursor only advances or takes a fresh chunk")
+	checkSlabNeverRewinds(c, "R11")
 	c.Rule("R10", "the integer fast path cannot overflow: a hand-written n = n*10 + digit loop only runs over slices short enough (zone witness) for the value to fit its type")
 	checkDigitAccumulation(c, "R10")
 	c.Rule("R9", "null and empty stay apart after decoding: no RESP text is replaced by a copy made with an idiom that turns empty into nil or nil into empty")
@@ -889,5 +893,264 @@ func checkDigitAccumulation(c *Ctx, rule string) {
 	if n == 0 {
 		c.Note("no hand-written decimal accumulation in proc/redis")
 		c.OK(rule, "no hand-written decimal accumulation", token.NoPos, "integers are parsed by strconv only")
+	}
+}
+
+// checkSlabNeverRewinds (C10.R11, C01.R9): decoded values are cut out of a slab and stay referenced by their requests
+// until the session writer has encoded them - for as long as an earlier request of the pipeline is outstanding. The
+// allocator therefore hands out every byte at most once: its cursor field is only advanced (buf = buf[n:]) or pointed
+// at a fresh chunk straight from make. Storing anything else into it (a remembered chunk: "rewind when idle") lets a
+// later reply be decoded over the bytes of an earlier one that has not been written yet.
+func checkSlabNeverRewinds(c *Ctx, rule string) {
+	p := c.P
+	at := p.Named(redisPkg, "sliceAlloc")
+	if at == nil {
+		c.Unresolved(rule, "sliceAlloc")
+		return
+	}
+	st, _ := at.Underlying().(*types.Struct)
+	var cursors []*types.Var
+	for i := 0; st != nil && i < st.NumFields(); i++ {
+		if sl, ok := st.Field(i).Type().Underlying().(*types.Slice); ok {
+			if b, ok := sl.Elem().Underlying().(*types.Basic); ok && b.Kind() == types.Byte {
+				cursors = append(cursors, st.Field(i))
+			}
+		}
+	}
+	if len(cursors) == 0 {
+		c.Unresolved(rule, "byte-slice field of sliceAlloc")
+		return
+	}
+	isCursor := func(f *types.Var) bool {
+		for _, x := range cursors {
+			if x == f {
+				return true
+			}
+		}
+		return false
+	}
+	// fresh: make, or the result of a module helper all of whose returns are a make
+	var fresh func(v ssa.Value, depth int) bool
+	fresh = func(v ssa.Value, depth int) bool {
+		if depth > 2 {
+			return false
+		}
+		switch x := v.(type) {
+		case *ssa.MakeSlice:
+			return true
+		case *ssa.Slice:
+			if al, ok := x.X.(*ssa.Alloc); ok && al.Heap {
+				return true
+			}
+		case *ssa.Call:
+			g := calleeFn(x.Common())
+			if g == nil || !isModFn(g) || g.Blocks == nil {
+				return false
+			}
+			ok, n := true, 0
+			eachInstr(g, func(_ *ssa.BasicBlock, _ int, in ssa.Instruction) {
+				if ret, isRet := in.(*ssa.Return); isRet && len(ret.Results) == 1 {
+					n++
+					if !fresh(returnedValues(ret)[0], depth+1) {
+						ok = false
+					}
+				}
+			})
+			return ok && n > 0
+		}
+		return false
+	}
+	n, nbad := 0, 0
+	for _, fn := range p.FuncsIn(redisPkg) {
+		if p.isTestFn(fn) {
+			continue
+		}
+		eachInstr(fn, func(_ *ssa.BasicBlock, _ int, in ssa.Instruction) {
+			s, ok := in.(*ssa.Store)
+			if !ok {
+				return
+			}
+			f, _ := fieldAddr(s.Addr)
+			if f == nil || !isCursor(f) {
+				return
+			}
+			n++
+			okv := fresh(s.Val, 0)
+			if sl, isSl := s.Val.(*ssa.Slice); isSl && sl.Low != nil {
+				if f2, _ := loadedField(sl.X); f2 == f {
+					okv = true // advance
+				}
+			}
+			if !okv {
+				nbad++
+				c.Fail(rule, fmt.Sprintf("%s store#%d into the slab cursor %s only advances or takes a fresh chunk", fnKey(fn), nbad, f.Name()), s.Pos(), "the slab allocator's cursor is set to something other than its own tail or a chunk straight from make: bytes that were handed out before are handed out again, so a reply is decoded over an earlier reply that its request still references - the earlier request's client reads the later reply's data")
+			}
+		})
+	}
+	if n == 0 {
+		c.Unresolved(rule, "no store into the slab cursor")
+		return
+	}
+	if nbad == 0 {
+		c.OK(rule, "the slab cursor only advances or takes a fresh chunk", token.NoPos, fmt.Sprintf("%d stores examined", n))
+	}
+}
+
+// checkLineEndMatchesSearch (C10.R12, C01.R10): the line reader finds its delimiter with bytes.IndexByte over a window
+// buf[lo:hi] and returns buf[start:end]. The index is relative to lo, so the line ends at lo+index+1 - whatever lo is.
+// Compared as linear forms over the field loads and locals of the function (two loads of the same field are the same
+// term when no store to that field lies between the search and the slice).
+func checkLineEndMatchesSearch(c *Ctx, rule string) {
+	p := c.P
+	n := 0
+	for _, fn := range p.FuncsIn(redisPkg) {
+		if p.isTestFn(fn) || fn.Signature.Recv() == nil || !modType(fn.Signature.Recv().Type(), redisPkg, "Reader") {
+			continue
+		}
+		// the searches, and the values that carry their result (phis of searches)
+		var calls []*ssa.Call
+		idx := map[ssa.Value]bool{}
+		eachInstr(fn, func(_ *ssa.BasicBlock, _ int, in ssa.Instruction) {
+			if call, ok := in.(*ssa.Call); ok && isCallTo(call, "bytes.IndexByte") {
+				if _, isSl := call.Call.Args[0].(*ssa.Slice); isSl {
+					calls = append(calls, call)
+					idx[call] = true
+				}
+			}
+		})
+		if len(calls) == 0 {
+			continue
+		}
+		for changed := true; changed; {
+			changed = false
+			eachInstr(fn, func(_ *ssa.BasicBlock, _ int, in ssa.Instruction) {
+				ph, ok := in.(*ssa.Phi)
+				if !ok || idx[ph] {
+					return
+				}
+				all := len(ph.Edges) > 0
+				for _, e := range ph.Edges {
+					if !idx[e] && e != ssa.Value(ph) {
+						all = false
+					}
+				}
+				if all {
+					idx[ph] = true
+					changed = true
+				}
+			})
+		}
+		type lform struct {
+			co map[string]int64
+			k  int64
+		}
+		var lin func(v ssa.Value, depth int) lform
+		lin = func(v ssa.Value, depth int) lform {
+			out := lform{co: map[string]int64{}}
+			if cv, ok := constInt(v); ok {
+				out.k = cv
+				return out
+			}
+			if idx[v] {
+				out.co["idx"] = 1
+				return out
+			}
+			if depth < 6 {
+				switch x := v.(type) {
+				case *ssa.BinOp:
+					if x.Op == token.ADD || x.Op == token.SUB {
+						a, b := lin(x.X, depth+1), lin(x.Y, depth+1)
+						sg := int64(1)
+						if x.Op == token.SUB {
+							sg = -1
+						}
+						for t, cc := range a.co {
+							out.co[t] += cc
+						}
+						for t, cc := range b.co {
+							out.co[t] += sg * cc
+						}
+						out.k = a.k + sg*b.k
+						return out
+					}
+				case *ssa.UnOp:
+					if x.Op == token.MUL {
+						if ap := accessPath(x, nil, 0); ap != "" {
+							out.co["fld:"+ap] = 1
+							return out
+						}
+					}
+				case *ssa.Convert:
+					return lin(x.X, depth+1)
+				}
+			}
+			out.co["v:"+v.Name()] = 1
+			return out
+		}
+		eq := func(a, b lform) bool {
+			if a.k != b.k {
+				return false
+			}
+			for t, cc := range a.co {
+				if cc != 0 && b.co[t] != cc {
+					return false
+				}
+			}
+			for t, cc := range b.co {
+				if cc != 0 && a.co[t] != cc {
+					return false
+				}
+			}
+			return true
+		}
+		buf := accessPath(calls[0].Call.Args[0].(*ssa.Slice).X, nil, 0)
+		eachInstr(fn, func(_ *ssa.BasicBlock, _ int, in2 ssa.Instruction) {
+			sl, ok := in2.(*ssa.Slice)
+			if !ok || sl.High == nil || buf == "" || accessPath(sl.X, nil, 0) != buf {
+				return
+			}
+			got := lin(sl.High, 0)
+			if got.co["idx"] == 0 {
+				return
+			}
+			n++
+			site := fmt.Sprintf("%s line end#%d is search start + index + 1", fnKey(fn), n)
+			same := true
+			for _, call := range calls {
+				win := call.Call.Args[0].(*ssa.Slice)
+				want := lform{co: map[string]int64{"idx": 1}, k: 1}
+				if win.Low != nil {
+					lo := lin(win.Low, 0)
+					for t, cc := range lo.co {
+						want.co[t] += cc
+					}
+					want.k += lo.k
+				}
+				if !eq(got, want) {
+					same = false
+				}
+				// no store to a field of the forms between the search and the slice
+				for t := range want.co {
+					if !strings.HasPrefix(t, "fld:") {
+						continue
+					}
+					eachInstr(fn, func(_ *ssa.BasicBlock, _ int, x ssa.Instruction) {
+						st, ok := x.(*ssa.Store)
+						if !ok {
+							return
+						}
+						if f, _ := fieldAddr(st.Addr); f != nil && strings.HasSuffix(t, "."+f.Name()) {
+							if findPath(posOf(call), pathQuery{target: func(y ssa.Instruction) bool { return y == x }, avoid: func(y ssa.Instruction) bool { return y == in2 }}) != nil && findPath(posOf(x), pathQuery{target: func(y ssa.Instruction) bool { return y == in2 }}) != nil {
+								same = false
+							}
+						}
+					})
+				}
+			}
+			c.Check(same, rule, site, sl.Pos(), "end of the returned line = start of the searched window + index + 1", "the index returned by the search is relative to the start of the searched window, but the line end is computed from a different origin: when the window does not start at the read position (bytes already scanned before the last fill are skipped) the returned line is too short - the decoder sees a bad line terminator on a valid stream, the session (or the shared backend connection with everything in flight on it) is torn down, and whether that happens depends on how the bytes were fragmented")
+		})
+	}
+	if n == 0 {
+		c.Unresolved(rule, "no delimiter search in the line reader")
 	}
 }
